@@ -103,6 +103,10 @@ def generate(seed, tier, batch):
         else:
             spec["parent"] = s - 1
         pool.append(spec)
+    if backend != "bosonic" and n >= 2 and r.random() < 0.25:
+        # the chain ends by deleting a mode (possibly one that was measured and whose value was used): reset must forget its value too
+        victim = r.choice(measured) if measured and r.random() < 0.7 else r.randrange(n)
+        pool[-1]["ops"].append({"op": "Del", "m": [victim]})
     used_free = sorted({f for sp in pool for o in sp["ops"] for e in o.get("p", []) for f in free_deps(e)})
     bind = {f: rnd(r, -0.5, 0.5) for f in used_free}
     # junk program for the pre-reset history (different mode count, own measurement)
@@ -110,7 +114,7 @@ def generate(seed, tier, batch):
     junk = {"n": jn, "ops": gen_ops(r, backend, jn, r.randint(1, 4), free=(), feedforward=False, allow_fock_meas=(backend == "fock")), "name": "junk"}
     script = {
         "backend": backend, "opts": opts, "pool": pool, "bind": bind, "junk": junk,
-        "tape": seed, "user_steps": [],
+        "tape": seed, "user_steps": [], "n_engines": r.choice([2, 2, 3]),
         "reset_opts": ({"cutoff_dim": opts["cutoff_dim"] + 1} if backend == "fock" and r.random() < 0.3 else None),
     }
     # compile / optimize calls on user programs between runs
@@ -339,27 +343,32 @@ def nonfault_checks(script, w, R, progs, fp0, e1, ref_state, ref_samples, ref_ap
             w.violation("compositional", "run(p+q) vs run([p,q])", {"diff": d}, feats)
             return
 
-    # ---- alternately on two engines
+    # ---- several engines advance through the same chain of (shared) program objects in a scheduler-chosen interleaving
     if len(progs) > 1:
-        ea, eb = R.engine(), R.engine()
         bind = script["bind"] or None
-        R.outcomes.rewind()
-        # engine A and B interleaved: each engine must see its own tape from the start, so give each its own stream
-        oa, ob = SeededOutcomes(script["tape"], w), SeededOutcomes(script["tape"], w)
-        last = {}
-        for p in progs:
-            for nm, eng, oc in (("A", ea, oa), ("B", eb, ob)):
-                R.env.rng.handler = oc
-                w.step("run_alt", eng=nm, prog=p.name)
-                last[nm] = eng.run(p, args=bind)
+        K = script.get("n_engines", 2)
+        engs = [R.engine() for _ in range(K)]
+        # every engine must see its own tape from the start: one outcome stream per engine, all with the same seed
+        tapes = [SeededOutcomes(script["tape"], w) for _ in range(K)]
+        progress = [0] * K
+        last = [None] * K
+        sched = random.Random("c09-interleave:%d" % script["tape"])
+        order = []
+        while any(pr < len(progs) for pr in progress):
+            k = sched.choice([i for i in range(K) if progress[i] < len(progs)])
+            order.append(k)
+            R.env.rng.handler = tapes[k]
+            w.step("run_interleaved", eng=k, seg=progress[k])
+            last[k] = engs[k].run(progs[progress[k]], args=bind)
+            progress[k] += 1
         R.env.rng.handler = R.outcomes
-        nruns += 2
-        for nm in ("A", "B"):
-            d = obs_diff(ref_state, state_obs(last[nm].state), TOL) or samples_diff(ref_samples, samples_obs(last[nm]))
+        nruns += K
+        for k in range(K):
+            d = obs_diff(ref_state, state_obs(last[k].state), TOL) or samples_diff(ref_samples, samples_obs(last[k]))
             if d:
-                w.violation("compositional", "two-engines-alternating", {"engine": nm, "diff": d}, feats)
+                w.violation("compositional", "engines-interleaved-on-shared-programs", {"engine": k, "interleaving": order, "diff": d}, feats)
                 return
-        if not check_fps(w, fp0, progs, "two-engines", feats):
+        if not check_fps(w, fp0, progs, "interleaved-engines", feats):
             return
 
     # ---- (2) reset == fresh, after a junk pre-history on the same engine
@@ -384,6 +393,11 @@ def nonfault_checks(script, w, R, progs, fp0, e1, ref_state, ref_samples, ref_ap
     if e1.run_progs or e1.samples is not None:
         w.violation("reset-equals-fresh", "engine-fields-after-reset", {"run_progs": len(e1.run_progs)}, feats)
         return
+    # documented: reset clears the measured values in all registers of the programs run since the last reset (junk program here)
+    stale = [k_ for k_, r_ in junk.reg_refs.items() if r_.val is not None]
+    if stale:
+        w.violation("reset-equals-fresh", "measured-values-cleared-by-reset", {"program": "junk", "modes": stale}, feats)
+        return
     st4, sm4, res4 = R.run_chain(e1, progs, "list")
     nruns += 1
     d = obs_diff(fresh_state, st4, TOL) or samples_diff(fresh_samples, sm4)
@@ -401,6 +415,11 @@ def nonfault_checks(script, w, R, progs, fp0, e1, ref_state, ref_samples, ref_ap
             w.violation("reset-equals-fresh", "ancillae_samples-after-reset", {"after_reset": _anc(a), "fresh": _anc(b)}, feats)
             return
     if not check_fps(w, fp0, progs, "run-after-reset", feats):
+        return
+    e1.reset()
+    stale = [(p_.name, k_) for p_ in progs for k_, r_ in p_.reg_refs.items() if r_.val is not None]
+    if stale:
+        w.violation("reset-equals-fresh", "measured-values-cleared-by-reset", {"still_holding_a_value": stale[:6]}, feats)
         return
     if nruns >= 2:
         w.nontrivial.add(hist_key)
